@@ -26,6 +26,7 @@ const (
 	idContractValid  = M + "provider/contract.Contract.Validate"
 	idSwarmContains  = M + "service/cluster.Swarm.Contains"
 	idNewSsid        = M + "message.NewSsid"
+	idCipherDecrypt  = M + "security/license.Cipher.DecryptKey"
 
 	idPubSubSubscribeI   = M + "service.PubSub.Subscribe"
 	idPubSubUnsubscribeI = M + "service.PubSub.Unsubscribe"
@@ -239,12 +240,12 @@ func c03R1(c *core.Ctx, rule string) {
 		c.Count("functions_analysed", 1)
 		c.Count("blocks_analysed", len(f.Blocks))
 		chanP, permP := param(f, 1), param(f, 2)
-		decs := callsIn(f, idDecryptKey)
-		if len(decs) != 1 {
-			c.Undecided(rule, name+":DecryptKey", f.Pos(), fmt.Sprintf("expected exactly one DecryptKey call, found %d", len(decs)))
+		dec, fresh, why := resolveDecrypt(f)
+		if dec == nil {
+			c.Undecided(rule, name+":DecryptKey", f.Pos(), "expected exactly one DecryptKey call (directly or through one helper returning (security.Key, error)): "+why)
 			continue
 		}
-		dec := decs[0].(*ssa.Call)
+		c.Check(fresh, rule, name+":key is freshly decrypted", dec.Pos(), "the key handed out is the buffer decrypted for this very call (callers such as ExtendKey modify it in place)", "Authorize may hand out a key that aliases shared storage ("+why+"); ExtendKey edits the returned key in place, so a later request with the same key string sees a different key")
 		key := extractOf(dec, 0)
 		gets := callsIn(f, idProviderGet)
 		if len(gets) != 1 {
@@ -325,6 +326,96 @@ func c03R1(c *core.Ctx, rule string) {
 		g := eng.Guarded(dec, banPred())
 		c.Check(g.Guarded && g.Edges > 0, rule, name+":ban before decrypt", dec.Pos(), "the ban lookup cuts off DecryptKey", "DecryptKey is reachable without the ban lookup")
 	}
+}
+
+// resolveDecrypt finds the call in f that yields the decrypted key: a direct DecryptKey call,
+// or a call of a helper returning (security.Key, error) that contains one. fresh reports
+// whether every key the call can yield is the result of a DecryptKey executed by that call
+// (not a value loaded from a field, map or cache).
+func resolveDecrypt(f *ssa.Function) (call *ssa.Call, fresh bool, why string) {
+	direct := callsIn(f, idDecryptKey, idCipherDecrypt)
+	if len(direct) == 1 {
+		return direct[0].(*ssa.Call), true, "direct call"
+	}
+	if len(direct) > 1 {
+		return nil, false, fmt.Sprintf("%d DecryptKey calls", len(direct))
+	}
+	var cands []*ssa.Call
+	eng.Instrs(f, func(in ssa.Instruction) {
+		c, ok := in.(*ssa.Call)
+		if !ok {
+			return
+		}
+		h := c.Call.StaticCallee()
+		if h == nil || h.Blocks == nil || h.Pkg != f.Pkg {
+			return
+		}
+		res := h.Signature.Results()
+		if res.Len() != 2 || !strings.HasSuffix(res.At(0).Type().String(), "security.Key") || res.At(1).Type().String() != "error" {
+			return
+		}
+		if len(eng.Calls(h, true, idDecryptKey, idCipherDecrypt)) == 0 {
+			return
+		}
+		cands = append(cands, c)
+	})
+	if len(cands) != 1 {
+		return nil, false, fmt.Sprintf("%d candidate helper calls", len(cands))
+	}
+	h := cands[0].Call.StaticCallee()
+	inner := eng.Calls(h, false, idDecryptKey, idCipherDecrypt)
+	fresh = true
+	why = "through helper " + h.Name()
+	var fromDec func(v ssa.Value, d int) bool
+	fromDec = func(v ssa.Value, d int) bool {
+		if d > 6 {
+			return false
+		}
+		if eng.IsNilConst(v) {
+			return true
+		}
+		switch x := v.(type) {
+		case *ssa.Extract:
+			for _, ic := range inner {
+				if x.Tuple == ic.Value() && x.Index == 0 {
+					return true
+				}
+			}
+		case *ssa.Phi:
+			for _, e := range x.Edges {
+				if !fromDec(e, d+1) {
+					return false
+				}
+			}
+			return true
+		case *ssa.UnOp:
+			// named result spilled to a local
+			if a, ok := x.X.(*ssa.Alloc); ok && x.Op == token.MUL {
+				if refs := a.Referrers(); refs != nil {
+					n := 0
+					for _, r := range *refs {
+						if st, ok := r.(*ssa.Store); ok && st.Addr == a {
+							n++
+							if !fromDec(st.Val, d+1) {
+								return false
+							}
+						}
+					}
+					return n > 0
+				}
+			}
+		}
+		return false
+	}
+	eng.Instrs(h, func(in ssa.Instruction) {
+		if ret, ok := in.(*ssa.Return); ok && len(ret.Results) == 2 {
+			if !fromDec(ret.Results[0], 0) {
+				fresh = false
+				why = "helper " + h.Name() + " can return a key that does not come from DecryptKey: " + eng.Describe(ret.Results[0])
+			}
+		}
+	})
+	return cands[0], fresh, why
 }
 
 func constBoolOf(v ssa.Value) (bool, bool) {
